@@ -57,6 +57,13 @@ def gen_cases(tier, rnd):
             cases.append(("limit", evs, rnd.choice([0, 1, 2, 3, 10])))
         elif r < 0.8:
             cases.append(("sum", evs))
+        elif r < 0.85:
+            cases.append(("concat", evs, grouping.rand_events(rnd, rnd.randint(0, 3))))
+        elif r < 0.92:
+            key = rnd.choice(["k1", "k2", "k9"])
+            sevs = grouping.rand_events(rnd, rnd.randint(0, 4), vals=("v1", "v2", "v12", "e", "v1"))      # string values only
+            rx = rnd.choice(sorted(grouping.RX))
+            cases.append(("regex", sevs, key, rx, rnd.choice(grouping.RX[rx])))
         else:
             cases.append(("filter", evs, rnd.choice(["k1", "k2", "k9"]), tuple(rnd.sample(["v1", "v2", "L1", "null", "L0", "L2"], rnd.randint(0, 3)))))
     return cases
@@ -99,7 +106,7 @@ def run(prop, tier, seed, replay=None):
         byop[c[0]] = byop.get(c[0], 0) + 1
     rep.cov.update(traces_validated_against_impl=nreal, evaluations=len(cases), distinct_nontrivial=len({repr(c) for c in cases if c[1]}),
                    rule="merge: every tuple of small events (2 keys x {v1,v2,absent}) x 5 key lists, plus random lists of <= 5 events over 3 keys with values {v1,v2,list,null}, missing keys, "
-                        "duplicates; chunk on key-bearing lists (half of them ascending); sort/limit/sum/filter+exclude on the same pool; non-trivial = non-empty input; distinct by input")
+                        "duplicates; chunk on key-bearing lists (half of them ascending); sort/limit/sum/concat/filter+exclude on the same pool; filter_keyvals_regex on string-valued events (values as token sets, regexes as one token / empty / dot / never-matching, several concrete regexes per abstract one); non-trivial = non-empty input; distinct by input")
     rep.notes["calls_by_function"] = byop
     rep.sample(traces[0][:2])
     for i in sorted(rej):
